@@ -34,7 +34,7 @@
 (*                                                                         *)
 (* Instants are <<day, second of day>>, day 0 = 2000-01-01 (32-bit TLC).   *)
 (***************************************************************************)
-EXTENDS Integers, Sequences, TLC, Json, IOUtils
+EXTENDS ProcCommon, Json, IOUtils
 
 Model == JsonDeserialize(IOEnv.EXTPROC_MODEL)
 Zones == Model.zones          \* [name, startYear, untilYear, bufSize, eras]
@@ -50,34 +50,9 @@ MaxInterior == 4              \* kMaxInteriorYears
 InvalidYear == 1872           \* LocalDate::kInvalidYearTiny + 2000
 NullLetter == "<null>"        \* Transition::letter() == nullptr (era without a policy)
 
-Max(a, b) == IF a > b THEN a ELSE b
 
 ----------------------------------------------------------------------------
-\* calendar
-IsLeap(y) == (y % 4 = 0 /\ y % 100 # 0) \/ y % 400 = 0
-DIM(y, m) == IF m = 2 THEN (IF IsLeap(y) THEN 29 ELSE 28) ELSE IF m \in {4, 6, 9, 11} THEN 30 ELSE 31
-Days(y0, m, d) == LET y == IF m <= 2 THEN y0 - 1 ELSE y0
-                      era == y \div 400
-                      yoe == y - era * 400
-                      mp == (m + 9) % 12
-                      doy == (153 * mp + 2) \div 5 + d - 1
-                      doe == yoe * 365 + yoe \div 4 - yoe \div 100 + doy
-                  IN era * 146097 + doe - 719468 - 10957
-Dow(n) == ((n + 5) % 7) + 1        \* ISO weekday 1 = Monday ... 7 = Sunday
-NormI(d, s) == <<d + (s \div 86400), s % 86400>>
-
-\* BasicZoneProcessor::calcStartDayOfMonth
-StartDay(y, mon, dow, dom) ==
-  IF dow = 0 THEN <<mon, dom>>
-  ELSE IF dom >= 0 THEN
-     LET dim == DIM(y, mon)
-         lim == IF dom = 0 THEN dim - 6 ELSE dom
-         day == lim + ((dow - Dow(Days(y, mon, lim)) + 7) % 7)
-     IN IF day > dim THEN <<mon + 1, day - dim>> ELSE <<mon, day>>
-  ELSE LET lim == 0 - dom
-           day == lim - ((Dow(Days(y, mon, lim)) - dow + 7) % 7)
-       IN IF day < 1 THEN <<mon - 1, day + DIM(y, mon - 1)>> ELSE <<mon, day>>
-
+\* calendar, calcStartDayOfMonth and the string helpers: ProcCommon.tla
 ----------------------------------------------------------------------------
 \* extended::DateTuple
 DT(y, m, d, mi, s) == [y |-> y, m |-> m, d |-> d, mi |-> mi, s |-> s]
@@ -229,11 +204,6 @@ Build(Z, Ms, k, acc) ==
 
 ----------------------------------------------------------------------------
 \* createAbbreviation / copyAndReplace (destination of kAbbrevSize = 7 bytes: six characters are kept)
-Trunc(s) == IF Len(s) > 6 THEN SubSeq(s, 1, 6) ELSE s
-Find(s, ch) == LET P == {k \in 1..Len(s) : SubSeq(s, k, k) = ch} IN IF P = {} THEN 0 ELSE CHOOSE k \in P : \A j \in P : k <= j
-RECURSIVE Replace(_, _)
-Replace(s, letter) == LET p == Find(s, "%") IN
-                      IF p = 0 THEN s ELSE SubSeq(s, 1, p - 1) \o letter \o Replace(SubSeq(s, p + 1, Len(s)), letter)
 Abbrev(fmt, delta, letter) ==
   IF Find(fmt, "%") # 0 THEN (IF letter = NullLetter THEN Trunc(fmt) ELSE Trunc(Replace(fmt, letter)))
   ELSE LET p == Find(fmt, "/") IN
@@ -260,8 +230,6 @@ Table(Z, year) ==
 
 ----------------------------------------------------------------------------
 \* what a caller sees: findTransition(epochSeconds) on the table of the UTC year of the instant
-Lt(a, b) == a[1] < b[1] \/ (a[1] = b[1] /\ a[2] < b[2])
-Le(a, b) == ~Lt(b, a)
 Val(r) == <<60 * (r.off + r.delta), IF r.delta # 0 THEN 1 ELSE 0, r.abbrev>>
 NoRow == <<0, 0, "<none>">>
 \* the pieces (maximal runs) that year `y` contributes, given the value `cur` the previous year ended with
